@@ -226,12 +226,16 @@ def build_cxxio(config="asan"):
     return out
 
 
-def build_win(config="asan"):
-    """C18: the Windows sources compiled on Linux against stubs/windows.h, allocation calls wrapped."""
+def build_win(config="asan", extra=False):
+    """C18: the Windows sources compiled on Linux against stubs/windows.h, allocation calls wrapped.
+    extra=True: a second binary that also contains redirect.windows.c and the modes calling process_wait /
+    process_terminate / process_kill / process_destroy / redirect_* directly (kept apart so that a change of
+    those internal signatures cannot take the C18 engine down with it)."""
     cfg = CONFIGS[config]
-    bdir = os.path.join(BUILD, config + "-win")
+    bdir = os.path.join(BUILD, config + ("-winx" if extra else "-win"))
     os.makedirs(bdir, exist_ok=True)
-    srcs = [os.path.join(REPO, "reproc/src", f) for f in ("process.windows.c", "utf.windows.c", "handle.windows.c", "redirect.windows.c")]
+    srcs = [os.path.join(REPO, "reproc/src", f) for f in ("process.windows.c", "utf.windows.c", "handle.windows.c") +
+            (("redirect.windows.c",) if extra else ())]
     harness = [os.path.join(SRC, "win.c"), os.path.join(SRC, "wrap.c"), os.path.join(SRC, "wrap.h"),
                os.path.join(VERIF, "stubs", "windows.h"), os.path.join(VERIF, "stubs", "io.h")]
     flags = cfg["cflags"]
@@ -251,7 +255,8 @@ def build_win(config="asan"):
     wrap_o = os.path.join(bdir, "wrap.o")
     run([cfg["cc"]] + flags + ["-I" + SRC, "-c", os.path.join(SRC, "wrap.c"), "-o", wrap_o])
     win_o = os.path.join(bdir, "win.o")
-    run([cfg["cc"]] + flags + ["-D_WIN32", "-w", "-I" + SRC] + inc + ["-c", os.path.join(SRC, "win.c"), "-o", win_o])
+    run([cfg["cc"]] + flags + ["-D_WIN32", "-w", "-I" + SRC] + (["-DWIN_EXTRA"] if extra else []) + inc +
+        ["-c", os.path.join(SRC, "win.c"), "-o", win_o])
     run([cfg["cc"]] + cfg["ldflags"] + [win_o, wrap_o, lib, "-o", out + ".tmp", "-lpthread"])
     os.replace(out + ".tmp", out)
     open(stamp, "w").write(digest)
